@@ -25,6 +25,11 @@
 //     series – and a measurement must be listed when all readings say so and must not be listed when none does;
 //   - never a name that is carried only by hidden series, nor only by deleted series.
 //
+// Many-values family: a second pool in which one measurement carries three values of one tag on three different
+// series; measurement listings with tag comparisons that match one, two or all three values (regexes, !=, !~) under
+// every subset of visible series (the index scans the matching values of a measurement in order and must go on to
+// the next value when the series of one value are all hidden).
+//
 // A group (measurement) returned with an EMPTY key list by Store.TagKeys is treated as not listed (the executor and the
 // storage service drop such groups).
 package c42
@@ -58,7 +63,8 @@ type seriesDef struct {
 	Tags map[string]string
 }
 
-var pool = []seriesDef{
+// poolClassic is the series pool of the original families (Dataset.Pool == "").
+var poolClassic = []seriesDef{
 	{"m0", map[string]string{"a": "x"}},
 	{"m0", map[string]string{"a": "y", "b": "z"}},
 	{"m1", map[string]string{"a": "x", "b": "z"}},
@@ -66,7 +72,39 @@ var pool = []seriesDef{
 	{"m2", map[string]string{"a": "y"}},
 }
 
-const nSeries = 5
+// poolValues3 (Dataset.Pool == "values3") is the pool of the many-values family: measurement m0 carries THREE values
+// of tag a on three different series (p < q < r), m1 two of them, m2 does not have the key; b=z occurs in m0 and m2.
+// With every subset of the 6 series hidden and tag comparisons that match one, two or all three values, every
+// combination of "the i-th matching value of the measurement is carried by hidden series only / by a visible series"
+// occurs.
+var poolValues3 = []seriesDef{
+	{"m0", map[string]string{"a": "p"}},
+	{"m0", map[string]string{"a": "q"}},
+	{"m0", map[string]string{"a": "r", "b": "z"}},
+	{"m1", map[string]string{"a": "q"}},
+	{"m1", map[string]string{"a": "r"}},
+	{"m2", map[string]string{"b": "z"}},
+}
+
+// pool / nSeries: the pool of the dataset being worked on (usePool); a worker handles one dataset at a time.
+var (
+	pool    = poolClassic
+	nSeries = len(poolClassic)
+)
+
+const maxSeries = 6
+
+func usePool(name string) {
+	switch name {
+	case "":
+		pool = poolClassic
+	case "values3":
+		pool = poolValues3
+	default:
+		panic("unknown pool " + name)
+	}
+	nSeries = len(pool)
+}
 
 func seriesKey(s int) string {
 	var ks []string
@@ -92,6 +130,7 @@ type Dataset struct {
 	Place []int  `json:"place"`
 	Mode  string `json:"mode"`
 	Del   *Del   `json:"delete,omitempty"`
+	Pool  string `json:"pool,omitempty"` // "" = the classic pool, "values3" = the many-values pool
 }
 
 // delete predicates of the dataset family and their reference (which pool series match)
@@ -102,12 +141,13 @@ var delPreds = map[string]func(s int) bool{
 	`b="z"`:                       func(s int) bool { return pool[s].Tags["b"] == "z" },
 	`_measurement="m1" AND b="w"`: func(s int) bool { return pool[s].M == "m1" && pool[s].Tags["b"] == "w" },
 	`_measurement="m0" AND a="y"`: func(s int) bool { return pool[s].M == "m0" && pool[s].Tags["a"] == "y" },
+	`a="q"`:                       func(s int) bool { return pool[s].Tags["a"] == "q" },
 }
 
 // model: live[s][sh] – series s still holds its point of shard group sh; ever[s] – s was written at all.
 type model struct {
-	live [nSeries][2]bool
-	ever [nSeries]bool
+	live [maxSeries][2]bool
+	ever [maxSeries]bool
 }
 
 func buildModel(ds Dataset) model {
@@ -953,6 +993,58 @@ func queries(thorough bool) []Query {
 	return out
 }
 
+// leaves3: tag comparisons of the many-values family. On key a (values p, q, r in m0; q, r in m1) the positive
+// forms match one, two (every pair) or all three values, the negative forms exclude one, two or all of them.
+func leaves3(thorough bool) []*Leaf {
+	out := []*Leaf{
+		{Key: "a", Op: "=~", Lit: "p|q", Regex: true}, {Key: "a", Op: "=~", Lit: "q|r", Regex: true}, {Key: "a", Op: "=~", Lit: "p|r", Regex: true},
+		{Key: "a", Op: "=~", Lit: "[pqr]", Regex: true}, {Key: "a", Op: "=~", Lit: "q", Regex: true},
+		{Key: "a", Op: "=", Lit: "q"}, {Key: "a", Op: "=", Lit: "r"},
+		{Key: "a", Op: "!=", Lit: "p"}, {Key: "a", Op: "!=", Lit: "q"},
+		{Key: "a", Op: "!~", Lit: "p|q", Regex: true}, {Key: "a", Op: "!~", Lit: "[pqr]", Regex: true},
+		{Key: "b", Op: "=~", Lit: "z|w", Regex: true}, {Key: "b", Op: "!=", Lit: "z"},
+	}
+	if thorough {
+		out = append(out,
+			&Leaf{Key: "a", Op: "=", Lit: "p"}, &Leaf{Key: "a", Op: "!=", Lit: "r"}, &Leaf{Key: "a", Op: "!~", Lit: "q|r", Regex: true},
+			&Leaf{Key: "a", Op: "!~", Lit: "r", Regex: true}, &Leaf{Key: "a", Op: "=~", Lit: ".*", Regex: true}, &Leaf{Key: "a", Op: "!=", Lit: ""},
+			&Leaf{Key: "a", Op: "=", Lit: ""}, &Leaf{Key: "b", Op: "=", Lit: "z"}, &Leaf{Key: "b", Op: "!~", Lit: "z", Regex: true})
+	}
+	return out
+}
+
+// queries3: the many-values family – measurement listings only, every authorizer (nil, open, every subset of the 6
+// series visible) × name filter × tag comparison.
+func queries3(thorough bool) []Query {
+	var out []Query
+	ns := []*NameF{nil, {Op: "=", Lit: "m0"}}
+	if thorough {
+		ns = append(ns, &NameF{Op: "=~", Lit: "m[01]", Regex: true})
+	}
+	for _, a := range auths(thorough) {
+		for _, n := range ns {
+			for _, l := range leaves3(thorough) {
+				out = append(out, Query{API: "MeasurementNames", Auth: a, Name: n, Leaf: l}, Query{API: "SHOW MEASUREMENTS", Auth: a, Name: n, Leaf: l})
+			}
+		}
+	}
+	return out
+}
+
+// datasets3: the datasets of the many-values family (appended after the classic ones, so their indices do not move).
+func datasets3(thorough bool) []Dataset {
+	out := []Dataset{
+		{Place: []int{3, 3, 3, 3, 3, 3}, Mode: "tsm", Pool: "values3"},
+		{Place: []int{2, 1, 3, 1, 2, 3}, Mode: "cache", Pool: "values3"},
+	}
+	if thorough {
+		out = append(out,
+			Dataset{Place: []int{1, 2, 2, 3, 3, 1}, Mode: "tsm", Pool: "values3"},
+			Dataset{Place: []int{3, 3, 3, 3, 3, 3}, Mode: "cache", Pool: "values3", Del: &Del{"all", `a="q"`}})
+	}
+	return out
+}
+
 func datasets(thorough bool) []Dataset {
 	var out []Dataset
 	places := [][]int{{3, 3, 3, 3, 3}, {1, 2, 3, 3, 1}, {3, 1, 2, 1, 2}}
@@ -975,7 +1067,7 @@ func datasets(thorough bool) []Dataset {
 	}
 	// simplest first: datasets without a delete, then the others
 	sort.SliceStable(out, func(i, j int) bool { return (out[i].Del == nil) && (out[j].Del != nil) })
-	return out
+	return append(out, datasets3(thorough)...)
 }
 
 func load(ds Dataset) (*mini.Fixture, mini.Bucket, error) {
@@ -1099,6 +1191,7 @@ func TestCheck(t *testing.T) {
 		Rule: "datasets × queries, complete product within the bounds. Series pool m0{a=x}, m0{a=y,b=z}, m1{a=x,b=z}, m1{b=w}, m2{a=y}; one point per series and shard group (two 1h groups A, B). " +
 			"Datasets: placements of the 5 series (absent / A / B / both; quick 3 placements, thorough 9) × one bucket delete through storage.Engine.DeleteBucketRangePredicate (quick: none, all-time a=x, range A no predicate, all-time m0 AND a=y; thorough + all-time _measurement=m0, range B b=z, all-time m1 AND b=w, range A a=x), layouts cache / tsm alternating (quick 12, thorough 72 datasets). " +
 			"Queries per dataset = APIs × authorizers × shard sets × conditions: authorizers nil, OpenAuthorizer and a fine-grained fake for EVERY subset of the 5 series (34); APIs Store.MeasurementNames, Store.TagKeys and Store.TagValues with shard id sets {A,B},{A},{B} (+{A,B,unknown id} thorough), SHOW MEASUREMENTS [WITH MEASUREMENT] [WHERE], SHOW TAG KEYS [FROM] [WHERE], SHOW TAG VALUES [FROM] WITH KEY =/!=/=~/IN [WHERE] through query.Executor → statement rewriter → StatementExecutor; condition = [_name filter: none, ='m0', !='m0', =~/m[01]/ (+ !~/0/ thorough)] AND [_tagKey clause: none, ='a', IN(a,b), !='a' (+ =~/a|b/, ='nokey' thorough)] AND [tag comparison: none or key∈{a,b} (+missing) × (= 'x', != 'x', = '', != '', =~ /x|z/, !~ /x/, =~ /^$/ (+ = 'y', != 'z', =~ /.*/, !~ /^$/ thorough))]. " +
+			"Many-values family (datasets appended after the classic ones): pool m0{a=p}, m0{a=q}, m0{a=r,b=z}, m1{a=q}, m1{a=r}, m2{b=z} – three values of tag a on three different series of ONE measurement; datasets: all series in both groups (tsm), placement (B,A,AB,A,B,AB) (cache) (thorough + placement (A,B,B,AB,AB,A) tsm and all-in-both followed by delete all-time a=q); queries = measurement listings only: Store.MeasurementNames, SHOW MEASUREMENTS × authorizers nil, OpenAuthorizer and a fine-grained fake for EVERY subset of the 6 series (66) × _name filter none, ='m0' (+ =~/m[01]/ thorough) × tag comparison a =~ /p|q/, /q|r/, /p|r/, /[pqr]/, /q/, a = 'q', 'r', a != 'p', 'q', a !~ /p|q/, /[pqr]/, b =~ /z|w/, b != 'z' (thorough + a = 'p', '', a != 'r', '', a !~ /q|r/, /r/, a =~ /.*/, b = 'z', b !~ /z/): every combination of which matching values of a measurement are carried by hidden series only occurs. " +
 			"Oracle: reference over the model of live (per queried shard set) and visible series – see the file header. non-trivial = queries whose reference lists ≥1 name (distinct by construction).",
 		Assumptions: []string{
 			"a series is live in a shard set iff it still holds a point in one of those shards (the delete semantics themselves are C17's business)",
@@ -1109,10 +1202,15 @@ func TestCheck(t *testing.T) {
 		},
 		QuickBudgetS: 60, ThoroughBudgetS: 1100,
 		Run: func(c *vlib.Ctx) {
-			qs := queries(c.Thorough())
+			usePool("")
+			qsClassic := queries(c.Thorough())
+			usePool("values3")
+			qs3 := queries3(c.Thorough())
+			usePool("")
 			dss := datasets(c.Thorough())
 			c.Note("datasets_total", fmt.Sprint(len(dss)))
-			c.Note("queries_per_dataset", fmt.Sprint(len(qs)))
+			c.Note("queries_per_dataset", fmt.Sprint(len(qsClassic)))
+			c.Note("queries_per_dataset_of_the_many_values_family", fmt.Sprint(len(qs3)))
 			done := 0
 			for i, ds := range dss {
 				if !c.Mine(int64(i)) {
@@ -1121,6 +1219,11 @@ func TestCheck(t *testing.T) {
 				if c.Expired() {
 					c.Cap(fmt.Sprintf("wall budget: datasets are visited simplest-first; this shard completed %d of its datasets (all queries for each)", done))
 					return
+				}
+				usePool(ds.Pool)
+				qs := qsClassic
+				if ds.Pool == "values3" {
+					qs = qs3
 				}
 				md := buildModel(ds)
 				f, b, err := load(ds)
@@ -1170,6 +1273,7 @@ func TestCheck(t *testing.T) {
 			if err := json.Unmarshal(raw, &cs); err != nil {
 				return false, err.Error()
 			}
+			usePool(cs.DS.Pool)
 			md := buildModel(cs.DS)
 			f, b, err := load(cs.DS)
 			if err != nil {
